@@ -447,4 +447,192 @@ private theorem ackRcvd_notfound (m : BufMap) (a b idx : Nat) (c : Colour)
   · simp only [h1, h0, h2, h3, if_false]
     rfl
 
+theorem head_mem {l : List Run} {r : Run} (h : l.head? = some r) : r ∈ l := by
+  cases l with
+  | nil => simp at h
+  | cons r2 l => simp at h; subst h; simp
+
+theorem ackRcvd_refines (m : BufMap) (a b : Nat) (hwf : WF m) (hab : a < b) (hb : b ≤ m.size)
+    (hnp : ∀ x, a ≤ x → x < b → m.abs x ≠ .pending) :
+    ∃ m', ackRcvd m a b = .ok m' ∧ WF m' ∧ m'.size = m.size ∧
+      ∀ x, m'.abs x = setRange m.abs a b (fun _ => Colour.recved) x := by
+  obtain ⟨P, S, hL, hlb, hP, hS⟩ := lowerBound_split a m.runs
+  have hsort := hwf.sorted
+  rw [hL] at hsort
+  obtain ⟨hPs, hSs, hPS⟩ := sorted_append hsort
+  have hSall := sorted_head_all S a hSs hS
+  have hrun : ∀ r ∈ m.runs, a ≤ r.1 → r.1 < b → r.2 ≠ .pending := by
+    intro r hr h1 h2
+    have h3 := abs_at_run m hwf r.1 r.2 hr
+    have h4 := hnp r.1 h1 h2
+    rw [h3] at h4; exact h4
+  have hlt := hwf.lt_size
+  by_cases hfound : ∃ c S', S = (a, c) :: S'
+  · -- `Ok(idx)`
+    obtain ⟨c, S', rfl⟩ := hfound
+    obtain ⟨M, T, hS', _, hM, hT⟩ := lowerBound_split b S'
+    subst hS'
+    have hget : m.runs[P.length]? = some (a, c) := by rw [hL]; simp
+    have hbs : bsearch m.runs a = (true, P.length) := by
+      simp only [bsearch, hlb, hget]; simp
+    have hc : c ≠ .pending := hrun (a, c) (by rw [hL]; simp) (Nat.le_refl _) hab
+    have hset : m.runs.set P.length (a, .recved) = P ++ (a, .recved) :: (M ++ T) := by rw [hL]; simp
+    obtain ⟨_, hS's⟩ := List.pairwise_cons.mp hSs
+    obtain ⟨_, hTs, _⟩ := sorted_append hS's
+    have hM' : ∀ r ∈ M, r.1 < b ∧ r.2 ≠ .pending := by
+      intro r hr
+      have hmem : r ∈ m.runs := by rw [hL]; simp [hr]
+      have := hSall r (by simp [hr])
+      exact ⟨hM r hr, hrun r hmem this (hM r hr)⟩
+    have hTlt : ∀ r ∈ T, r.1 < m.size := fun r hr => hlt r (by rw [hL]; simp [hr])
+    have hTc : ∀ x, b ≤ x → colourAt m.runs .recved x = colourAt T (lastCol M c) x := by
+      intro x hx
+      have : m.runs = (P ++ (a, c) :: M) ++ T := by rw [hL]; simp
+      rw [this, colourAt_append_le _ T _ x, lastCol_append, lastCol_cons]
+      intro r hr
+      simp at hr
+      rcases hr with hr | hr | hr
+      · have := hP r hr; omega
+      · subst hr; simp; omega
+      · have := hM r hr; omega
+    rw [ackRcvd_found m a b P.length a c hbs hget hc, hset]
+    obtain ⟨P1, P2, P3, hsplit, hsb, hlen, hcol⟩ :=
+      sameBefore_split .recved (P ++ (a, .recved) :: (M ++ T)) P.length (by simp)
+    have hinj := List.append_inj (s₁ := P1 ++ P2) (t₁ := P3) (s₂ := P) (t₂ := (a, .recved) :: (M ++ T))
+      hsplit.symm (by simp [hlen])
+    obtain ⟨hP12, hP3⟩ := hinj
+    rw [hsb]
+    cases P2 with
+    | nil =>
+      simp at hP12
+      subst hP12
+      obtain ⟨Z, hres, hZ1, hZ2, hZ3⟩ := ack_rest m a b (P1 ++ (a, .recved) :: (M ++ T)) (P1 ++ [(a, .recved)]) M T
+        (P1 ++ [(a, .recved)]) M c false (by simp) rfl hM' hT hb hTs hTlt
+      simp only [List.length_append, List.length_cons, List.length_nil, Nat.zero_add] at hres
+      refine ⟨_, hres, ?_⟩
+      simp only [Bool.false_eq_true, if_false, Option.toList, List.append_nil]
+      have := ack_assemble m a b hab hb P1 _ (P1 ++ [(a, .recved)]) Z T (lastCol M c) hL hS hTc
+        (List.pairwise_append.mpr ⟨hPs, by simp, by
+          intro r hr r' hr'; simp at hr'; subst hr'; exact hP r hr⟩)
+        (by intro r hr; simp at hr; rcases hr with hr | hr
+            · have := hP r hr; omega
+            · subst hr; simp)
+        (by rw [lastCol_append, lastCol_single])
+        (by intro x hx; apply colourAt_append_gt; intro r hr; simp at hr; subst hr; exact hx)
+        hZ1 hZ2 hZ3
+      exact ⟨this.1, trivial, this.2⟩
+    | cons p2 P2' =>
+      subst hP12
+      have hp2 : p2.2 = .recved := hcol p2 (by simp)
+      obtain ⟨Z, hres, hZ1, hZ2, hZ3⟩ := ack_rest m a b ((P1 ++ p2 :: P2') ++ (a, .recved) :: (M ++ T))
+        ((P1 ++ p2 :: P2') ++ [(a, .recved)]) M T
+        (P1 ++ [p2]) (P2' ++ (a, .recved) :: M) c false (by simp) (by simp) hM' hT hb hTs hTlt
+      simp only [List.length_append, List.length_cons, List.length_nil, Nat.zero_add] at hres
+      simp only [List.length_append, List.length_cons] at hres ⊢
+      refine ⟨_, hres, ?_⟩
+      simp only [Bool.false_eq_true, if_false, Option.toList, List.append_nil]
+      have hP1s : Sorted (P1 ++ [p2]) := by
+        have : P1 ++ p2 :: P2' = (P1 ++ [p2]) ++ P2' := by simp
+        rw [this] at hPs
+        exact (sorted_append hPs).1
+      have := ack_assemble m a b hab hb (P1 ++ p2 :: P2') _ (P1 ++ [p2]) Z T (lastCol M c) hL hS hTc
+        hP1s
+        (by intro r hr
+            have : r ∈ P1 ++ p2 :: P2' := by
+              simp at hr ⊢; rcases hr with hr | hr
+              · exact Or.inl hr
+              · exact Or.inr (Or.inl hr)
+            have := hP r this; omega)
+        (by rw [lastCol_append, lastCol_single, hp2])
+        (by intro x _
+            have h1 : P1 ++ p2 :: P2' = (P1 ++ [p2]) ++ P2' := by simp
+            have h2 : P1 ++ [p2] = (P1 ++ [p2]) ++ [] := by simp
+            rw [h1]
+            conv => lhs; rw [h2]
+            apply colourAt_append_congr
+            rw [lastCol_append, lastCol_single, hp2]
+            simp only [colourAt]
+            exact (colourAt_same P2' .recved x (fun r hr => hcol r (by simp [hr]))).symm)
+        hZ1 hZ2 hZ3
+      exact ⟨this.1, trivial, this.2⟩
+  · -- `Err(idx)`
+    have hShead : ∀ r, S.head? = some r → a < r.1 := by
+      intro r hr
+      have h1 := hS r hr
+      have h2 : r.1 ≠ a := by
+        intro h
+        apply hfound
+        cases S with
+        | nil => simp at hr
+        | cons r2 S' => simp at hr; subst hr; exact ⟨r2.2, S', by rw [← h]⟩
+      omega
+    have hbs : bsearch m.runs a = (false, P.length) := by
+      simp only [bsearch, hlb]
+      cases hS0 : S with
+      | nil => rw [hL, hS0]; simp
+      | cons r S' =>
+        have h := hShead r (by rw [hS0]; rfl)
+        have hget : m.runs[P.length]? = some r := by rw [hL, hS0]; simp
+        have : (r.1 == a) = false := by simp; omega
+        rw [hget]; simp only [this]
+    have hc0 : lastCol P .recved ≠ .pending := by
+      have h1 := hnp a (Nat.le_refl _) hab
+      rw [abs_of_lt m a (by omega), hL,
+        colourAt_append_le P S _ a (fun r hr => by have := hP r hr; omega),
+        colourAt_lt_head S _ a hShead] at h1
+      exact h1
+    have h2 : (P.length = 0 ∧ lastCol P .recved = .recved) ∨
+        (P.length ≠ 0 ∧ ∃ o, m.runs[P.length - 1]? = some (o, lastCol P .recved)) := by
+      by_cases hPn : P = []
+      · left; subst hPn; exact ⟨rfl, rfl⟩
+      · right
+        refine ⟨by intro h; exact hPn (List.length_eq_zero_iff.mp h), ?_⟩
+        have hdl := List.dropLast_concat_getLast hPn
+        refine ⟨(P.getLast hPn).1, ?_⟩
+        have hl : lastCol P .recved = (P.getLast hPn).2 := by
+          conv => lhs; rw [← hdl]
+          rw [lastCol_append, lastCol_single]
+        rw [hl, hL, List.getElem?_append_left (by have := List.length_pos_iff.mpr hPn; omega)]
+        rw [← List.getLast?_eq_getElem?, List.getLast?_eq_some_getLast hPn]
+    rw [ackRcvd_notfound m a b P.length _ hbs h2 hc0]
+    obtain ⟨M, T, hS', _, hM, hT⟩ := lowerBound_split b S
+    subst hS'
+    obtain ⟨_, hTs, _⟩ := sorted_append hSs
+    have hM' : ∀ r ∈ M, r.1 < b ∧ r.2 ≠ .pending := by
+      intro r hr
+      have hmem : r ∈ m.runs := by rw [hL]; simp [hr]
+      have := hSall r (by simp [hr])
+      exact ⟨hM r hr, hrun r hmem this (hM r hr)⟩
+    have hTlt : ∀ r ∈ T, r.1 < m.size := fun r hr => hlt r (by rw [hL]; simp [hr])
+    have hTc : ∀ x, b ≤ x → colourAt m.runs .recved x = colourAt T (lastCol M (lastCol P .recved)) x := by
+      intro x hx
+      have : m.runs = (P ++ M) ++ T := by rw [hL]; simp
+      rw [this, colourAt_append_le _ T _ x, lastCol_append]
+      intro r hr
+      simp at hr
+      rcases hr with hr | hr
+      · have := hP r hr; omega
+      · have := hM r hr; omega
+    obtain ⟨Z, hres, hZ1, hZ2, hZ3⟩ := ack_rest m a b m.runs P M T P M (lastCol P .recved)
+      (lastCol P .recved != .recved) hL rfl hM' hT hb hTs hTlt
+    refine ⟨_, hres, ?_⟩
+    by_cases hcr : lastCol P .recved = .recved
+    · have hn : (lastCol P .recved != .recved) = false := by simp [hcr]
+      simp only [hn, Bool.false_eq_true, if_false, Option.toList, List.append_nil]
+      have := ack_assemble m a b hab hb P _ P Z T _ hL hS hTc hPs
+        (fun r hr => by have := hP r hr; omega) hcr (fun _ _ => rfl) hZ1 hZ2 hZ3
+      exact ⟨this.1, trivial, this.2⟩
+    · have hn : (lastCol P .recved != .recved) = true := by simp [hcr]
+      simp only [hn, if_true, Option.toList]
+      have := ack_assemble m a b hab hb P _ (P ++ [(a, .recved)]) Z T _ hL hS hTc
+        (List.pairwise_append.mpr ⟨hPs, by simp, by
+          intro r hr r' hr'; simp at hr'; subst hr'; exact hP r hr⟩)
+        (by intro r hr; simp at hr; rcases hr with hr | hr
+            · have := hP r hr; omega
+            · subst hr; simp)
+        (by rw [lastCol_append, lastCol_single])
+        (by intro x hx; apply colourAt_append_gt; intro r hr; simp at hr; subst hr; exact hx)
+        hZ1 hZ2 hZ3
+      exact ⟨this.1, trivial, this.2⟩
+
 end GmQuic.BufMap
